@@ -150,6 +150,14 @@ from . import c03 as _c03r   # noqa: E402
 REPLAY.update({"radius": _c03r.replay_radius})
 
 
+def _replay_sht(data):
+    from . import c07
+    return c07.replay_sht(data)
+
+
+REPLAY["sht"] = _replay_sht
+
+
 # ------------------------------------------------------------------------------------ run
 def run(ctx):
     from chmpy.shape import shape_descriptors as real
@@ -162,9 +170,10 @@ def run(ctx):
     ctx.stub("sphere_promolecule_radii / sphere_stockholder_radii return an arbitrary radius per direction (contract: depends only on geometry relative to the origin; -1 iff no sign change); "
              "SHT.analysis, coefficient expansion and the invariants are opaque recorders (C07, C08); property functions record the points they are asked for")
     ctx.out_of_scope("the discretisation-error clause (a limit); float32 root accuracy; Brent iteration (only its call contract)")
+    ctx.stub("invariants / descriptors of a sampled function rest on the transform grid being exact for the degree (ntheta >= l_max + 1): C07's grid rule, run here as a dependency section")
     from . import c03 as _c03
     ctx.stub("the crystal entry points take their Hirshfeld environment from Crystal.molecule_environment(s) / atomic_surroundings / atom_group_surroundings: that they search every cell within the radius is C03's lemma A, run here as a dependency section")
-    ctx.parallel_sections([("descriptors", part_descriptors), ("molecule", part_molecule), ("crystal", part_crystal)] + _c03.dependency_sections({"molecule_environment", "atomic_surroundings", "atom_group_surroundings"}))
+    ctx.parallel_sections([("descriptors", part_descriptors), ("molecule", part_molecule), ("crystal", part_crystal)] + _c03.dependency_sections({"molecule_environment", "molecule_environments", "atomic_surroundings", "atom_group_surroundings"}) + __import__('verif.props.c07', fromlist=['x']).dependency_sections())
 
 
 def _shim_sd():
